@@ -24,6 +24,9 @@ def check(tier, seed):
     d.add_callsite_witness("callsite:nonhermitian/H0-commutes-with-kept-part-of-U'", "bd_battery.py", "nh_finding",
                            "hypothesis of PV.NH.X_comm / main_similarity: H_0 commutes with the kept part of U'. block_diagonalize(hermitian=False) "
                            "does not establish it; the witness problem is replayed on every run")
+    d.add_callsite_witness("callsite:nonhermitian/second-quantized-solver-has-no-non-Hermitian-mode", "nof_battery.py", "nh2q_finding",
+                           "hermitian=False with operator-valued input: the second-quantized solver is only specified (and proved, C07 / C16) for Hermitian right-hand sides of diagonal elements; "
+                           "block_diagonalize does not reject the combination; the witness is replayed on every run")
     d.assumptions += [LEAN_SETTING_NOTE,
                       "the similarity theorems are proved under the extra hypothesis  H_0 (S U') = (S U') H_0 ; inverse and gauge theorems need no hypothesis",
                       "no symmetry of the masks is used (asymmetric masks are covered)",
